@@ -126,6 +126,8 @@ def limitsExceeded (env : Env) (st : St M) : Bool × St M :=
 def abortCheck (env : Env) (st : St M) : Bool × St M :=
   let (r, st) := poll env st
   if !r then (true, { st with aborted := true }) else
+  -- the ply cap makes `limits_exceeded` true without being an interruption of the search
+  if st.ply == 255 then (true, st) else
   let (x, st) := limitsExceeded env st
   (x, if x then { st with aborted := true } else st)
 
